@@ -11,6 +11,20 @@ conjunction of the shards' Finish guards is the global one), (c) names the funct
 addr2line to build finding keys, (d) for keys listed in findings/known-findings.txt rewrites the
 known-bad events into what the fixed library would do (RawMalloc -> Malloc, RawFree -> Free, a known
 leak -> Free before Finish) so that everything ELSE is still decided by TLC.
+
+Attribution of raw libc calls: the library objects (mir.o, mir-gen.o, c2mir.o from vlib.build_lib) are copied with
+`objcopy --redefine-sym malloc=__wrap_malloc ...` (WRAP_SYMS), i.e. exactly the effect of `ld --wrap=...` but on
+these three objects only.  A whole-link --wrap would also redirect the harness's own references, among them the
+`malloc`/`free` handed to MIR programs as externals, and force the harness to tell callers apart by return address;
+with per-object renaming every __wrap_* call IS a library call, and libc-internal allocations (stdio buffers of
+fopen/fprintf in MIR_output, getline ...) never appear because they are not references of these objects.
+build() verifies with nm that no raw name is left and that __wrap_malloc/__wrap_mmap are referenced (mir.c
+contains the default allocators, so the renaming is observable on every tree).
+
+Use after free is outside the spec: the ledger quarantines and poisons released blocks (writes -> UseAfterFree
+event at Finish) and the same histories run in the asan variant with the quarantine ASan-poisoned; only
+use-after-poison / use-after-free / double-free / bad-free reports count for this property, other sanitizer
+reports and crashes of the plain build are printed as notes (they belong to other properties).
 """
 import collections, glob, hashlib, json, os, re, shutil, subprocess, sys, time
 from concurrent.futures import ThreadPoolExecutor
@@ -81,18 +95,18 @@ C_INPUTS = ["fib", "prepro", "structs", "loops", "funcptr", "empty"]
 LINKS = ["interp", "gen", "lazy", "lazybb"]
 
 
-def hist(src, link="interp", opt=2, run=1, out=0, rep=1, fin="full"):
+def hist(src, link="interp", opt=2, run=1, out=0, rep=1):
     if "sieve" in src and link == "interp":
         run = 0          # the sieve programs take 40 s (plain) / 250 s (asan) in the interpreter
-    return "src=%s,link=%s,opt=%d,run=%d,out=%d,rep=%d,fin=%s" % (src, link, opt, run, out, rep, fin)
+    return "src=%s,link=%s,opt=%d,run=%d,out=%d,rep=%d" % (src, link, opt, run, out, rep)
 
 
-def histories(tier, seed):
+def histories(tier, seed, variant="plain"):
     mirs = sorted(glob.glob(os.path.join(vlib.REPO, "mir-tests", "test*.mir")),
                   key=lambda p: int(re.findall(r"(\d+)\.mir$", p)[0]))
     if not mirs:
         raise MachineryError("no mir-tests/test*.mir in " + vlib.REPO)
-    H = []
+    H = ["src=adt"]
     apis = ["api:loop", "api:sieve", "api:memop", "scanstr:sieve"]
     if tier == "quick":
         for i, a in enumerate(apis):
@@ -123,6 +137,8 @@ def histories(tier, seed):
         ctests = sorted(glob.glob(os.path.join(vlib.REPO, "c-tests", "new", "*.c")))
         for i, c in enumerate(ctests):
             k = i + seed
+            if k % (6 if variant == "asan" else 2) != 0:
+                continue     # 60% of all events come from these inputs: a seed-rotated half (asan: sixth) per run
             H.append(hist("c2m:" + c, (["none"] + LINKS)[k % 5], k % 4, run=0, out=(k // 5) % 2))
     return H
 
@@ -350,6 +366,8 @@ def normalize(x, sy, known):
             size[e["id"]] = e["size"]
             alloc_ev[e["id"]] = e
         elif k == "Calloc":
+            if e["num"] * e["esz"] >= 2 ** 31:
+                raise MachineryError("calloc of %d bytes does not fit TLC's integers" % (e["num"] * e["esz"]))
             size[e["id"]] = e["num"] * e["esz"]
             alloc_ev[e["id"]] = e
         elif k == "Realloc":
@@ -456,9 +474,6 @@ def write_file(units, path):
                 f.write(json.dumps(t, separators=(",", ":")))
                 f.write("\n")
                 n += 1
-            if not u.events or u.events[-1][0]["e"] != "Reset":
-                # an execution cut short by a fault/crash: the rest of the file must not depend on it
-                pass
     return n
 
 
@@ -479,8 +494,10 @@ def pack(units):
 
 
 class Validator:
-    def __init__(self, ck, symb):
+    def __init__(self, ck, symb, exes=None):
         self.ck, self.symb = ck, symb     # symb: variant -> Symb
+        self.exes = exes                  # variant -> harness executable: lets a failing history be run again
+        self.rerun_done = {}              # (history, variant) -> keys its second recording is rejected for
         self.states = self.transitions = 0
         self.events_validated = 0
         self.tlc_runs = 0
@@ -579,10 +596,31 @@ class Validator:
             if m2 != self.cur_matched:
                 raise MachineryError("TLC rejected %s at event %d, then at %d" % (self.cur_file, self.cur_matched + 1, m2 + 1))
             self.confirmed.add(self.cur_file)
+        if not self.ck.findings.is_known(PROP, key) and self.exes:
+            # soundness rule 5: the failing history is recorded and validated a second time
+            hv = (x.history, x.variant)
+            if hv not in self.rerun_done:
+                self.rerun_done[hv] = self.rerun(x)
+            if key not in self.rerun_done[hv]:
+                log("  note: %s in %s [%s] did not repeat when the history was run again; not reported" % (key, x.history, x.variant))
+                return
         case = {"history": x.history, "variant": x.variant, "event": ev, "key": key}
         if extra:
             case.update(extra)
         self.ck.violation(key, "%s [%s] %s" % (x.history, x.variant, text), case)
+
+    def rerun(self, x):
+        res = record(self.exes[x.variant], [x.history], "rerun-%s-%d" % (x.variant, len(self.rerun_done)))
+        xs = []
+        for path, hs, crash in res:
+            xs += [y for y in split_trace(path, hs, x.variant) if not y.aborted]
+        v2 = Validator(QuietCheck(self.ck.findings), self.symb)
+        v2.forced = set(self.forced)
+        saved = self.nfile
+        v2.nfile = 90000 + 100 * len(self.rerun_done)
+        v2.validate(xs)
+        self.tlc_runs += v2.tlc_runs
+        return set(k for _, k, _, _ in v2.rejections)
 
     def diagnose(self, u, t, idx, path, matched):
         """Names the finding(s) behind the rejected event.  Returns True if the execution can be repaired
@@ -698,7 +736,10 @@ def model_check(ck, tier):
 # ------------------------------------------------------------------ run
 
 def record_all(variants, H, tag):
-    """Record all histories with every variant, in parallel batches. Returns (execs, crashes, symb)."""
+    """Record histories (a list, or a dict variant -> list) with every variant, in parallel batches.
+    Returns (execs, crashes, symb, exes)."""
+    if not isinstance(H, dict):
+        H = {v: H for v in variants}
     exes = {}
     with ThreadPoolExecutor(max_workers=len(variants)) as ex:
         for v, exe in zip(variants, ex.map(build, variants)):
@@ -707,10 +748,10 @@ def record_all(variants, H, tag):
     shutil.rmtree(os.path.join(WORK, "traces"), ignore_errors=True)
     shutil.rmtree(os.path.join(WORK, "tlc"), ignore_errors=True)
     jobs = []
-    nb = max(1, min(8, len(H) // 6))
     for v in variants:
+        nb = max(1, min(8, len(H[v]) // 6))
         for b in range(nb):
-            part = H[b::nb]
+            part = H[v][b::nb]
             if part:
                 jobs.append((v, part, "%s-%s-b%d" % (tag, v, b)))
     execs, crashes = [], []
@@ -763,11 +804,13 @@ def run(tier, hist_override=None, variants=None):
     ck = Check(PROP, tier, "model_checking")
     seed = vlib.seed()
     t0 = time.time()
-    mst, mtr = model_check(ck, tier)
-    H = hist_override or histories(tier, seed)
     variants = variants or ["plain", "asan"]
-    execs, crashes, symb, exes = record_all(variants, H, "run")
-    t_rec = time.time() - t0
+    H = {v: (hist_override or histories(tier, seed, v)) for v in variants}
+    with ThreadPoolExecutor(max_workers=1) as ex:      # the contract model is checked while the histories run
+        mc = ex.submit(model_check, ck, tier)
+        execs, crashes, symb, exes = record_all(variants, H, "run")
+        t_rec = time.time() - t0
+        mst, mtr = mc.result()
     good = [x for x in execs if not x.aborted]
     discarded = [x for x in execs if x.aborted]
     why = collections.Counter(next(e["why"] for e in x.events if e["e"] == "Abort")[:60] for x in discarded)
@@ -794,14 +837,14 @@ def run(tier, hist_override=None, variants=None):
             "(not counted, execution discarded): %s" % (n, sm))
     # an execution cut short by a crash is validated only if the trace carries the fault (rc 41)
     good = [x for x in good if x.crash is None or x.crash["rc"] == 41]
-    V = Validator(ck, symb)
+    V = Validator(ck, symb, exes)
     V.validate(good)
     nev = sum(len(x.events) for x in good)
     ck.setc("states", mst + V.states)
     ck.setc("transitions", mtr + V.transitions)
     ck.setc("model_states", mst)
     ck.setc("traces_validated_against_impl", len(good))
-    ck.setc("histories", len(H))
+    ck.setc("histories", sum(len(h) for h in H.values()))
     ck.setc("variants", variants)
     ck.setc("executions_recorded", len(execs))
     ck.setc("discarded_not_error_free", len(discarded))
@@ -829,9 +872,9 @@ def run(tier, hist_override=None, variants=None):
                        "reads of released blocks are detected only in the asan variant (poisoned quarantine); writes in both",
                        "raw libc calls are attributed by object file: mir.o, mir-gen.o, c2mir.o have their undefined "
                        "malloc/calloc/realloc/free/mmap/munmap/mprotect/... renamed to __wrap_*"]
-    log("  %d histories x %s: %d executions (%d discarded as not error-free), %d events recorded in %.0fs incl. build; "
+    log("  %d histories (%s): %d executions (%d discarded as not error-free), %d events recorded in %.0fs incl. build; "
         "TLC matched %d events in %d runs (%.0f events/s per JVM), %d rejections"
-        % (len(H), variants, len(execs), len(discarded), nev, t_rec, V.events_validated, V.tlc_runs,
+        % (sum(len(h) for h in H.values()), ", ".join("%s %d" % (v, len(H[v])) for v in variants), len(execs), len(discarded), nev, t_rec, V.events_validated, V.tlc_runs,
            V.events_validated / V.tlc_wall if V.tlc_wall else 0, len(V.rejections)))
     if not good and not ck.violations:
         raise MachineryError("no execution was recorded")
@@ -840,33 +883,50 @@ def run(tier, hist_override=None, variants=None):
 
 # ------------------------------------------------------------------ replay / selftest
 
+class QuietCheck:
+    """What Validator needs from vlib.Check, without touching out/replay or evidence/."""
+
+    def __init__(self, findings=None):
+        self.findings = findings or vlib.Findings()
+        self.known_hits, self.violations = {}, []
+
+    def violation(self, key, text, case):
+        if self.findings.is_known(PROP, key):
+            self.known_hits.setdefault(key, self.findings.known[(PROP, key)])
+            return False
+        self.violations.append((key, text, None))
+        return True
+
+
 def replay(path):
     d = json.load(open(path))
     c = d["case"]
-    ck = Check(PROP, "quick", "model_checking")
+    key = c.get("key") or d.get("key")
+    ck = QuietCheck()
     execs, crashes, symb, exes = record_all([c["variant"]], [c["history"]], "replay")
-    bad = 0
+    found = set()
     for cr in crashes:
-        key, in_scope = crash_key(cr)
-        if key and in_scope:
-            print("replay: harness died again: rc=%s %s" % (cr["rc"], (cr["stderr"] or "")[-400:]))
-            bad += 1
+        k, in_scope = crash_key(cr)
+        if k and in_scope:
+            print("replay: harness died: %s rc=%s %s" % (k, cr["rc"], (cr["stderr"] or "")[:600]))
+            found.add(k)
     V = Validator(ck, symb)
-    V.validate([x for x in execs if not x.aborted])
-    for x, key, text, ev in V.rejections:
-        known = ck.findings.is_known(PROP, key)
-        print("replay: %s%s: %s" % ("(known finding) " if known else "", key, text[:500]))
-        bad += 0 if known else 1
-    if bad:
+    V.validate([x for x in execs if not x.aborted and (x.crash is None or x.crash["rc"] == 41)])
+    for x, k, text, ev in V.rejections:
+        if k not in found:
+            print("replay: %s%s: %s" % ("(known finding) " if ck.findings.is_known(PROP, k) else "", k, text[:500]))
+        found.add(k)
+    if key in found and not ck.findings.is_known(PROP, key):
+        print("replay: %s still fails" % key)
         print("VIOLATION property=%s replay=%s" % (PROP, path))
         return 1
-    print("replay: trace accepted (%d events)" % V.events_validated)
+    print("replay: %s does not occur any more (%d events matched by TLC%s)"
+          % (key, V.events_validated, "; other keys seen: " + ", ".join(sorted(found)) if found else ""))
     return 0
 
 
 def selftest():
     """Binding demonstration: TLC accepts recorded traces and rejects each of them after one edit."""
-    ck = Check(PROP, "quick", "model_checking")
     m = os.path.join(vlib.REPO, "mir-tests", "test9.mir")
     execs, crashes, symb, exes = record_all(["plain"], [hist("scan:" + m, "lazy", 2, out=1), hist("api:sieve", "gen", 1)], "selftest")
     if crashes or any(x.aborted for x in execs):
